@@ -54,7 +54,15 @@ func isHello(p *simnet.Packet, parser *frame.Builder) (bool, bool) {
 	return true, hdr.FollowUp
 }
 
+// burstOps counts lock operations of router/ and state/ since two frames were handed to one
+// router together; switchAt are the two counts at which the processor changes hands (0: coin).
+var (
+	burstOps int
+	switchAt [2]int
+)
+
 func run(e *core.Env) {
+	burstOps, switchAt = 0, [2]int{}
 	tp := e.Tape
 	e.StartClock()
 	nNodes := 2
@@ -73,6 +81,22 @@ func run(e *core.Env) {
 		switches := 0
 		simsync.Blocking = true
 		simsync.Yield = func(op string) {
+			if switchAt[0] > 0 {
+				// two frames are being handled side by side and this burst drew switch points:
+				// the processor changes hands at exactly two lock operations, counted over all
+				// workers from the arrival of the frames (every alignment of the two handlers
+				// is then about equally likely; a coin at every lock makes late alignments
+				// exponentially rare)
+				ymu.Lock()
+				burstOps++
+				hit := burstOps == switchAt[0] || burstOps == switchAt[1]
+				ymu.Unlock()
+				if hit {
+					switches++
+					runtime.Gosched()
+				}
+				return
+			}
 			ymu.Lock()
 			ys += 0x9e3779b97f4a7c15
 			z := ys
@@ -294,9 +318,13 @@ func run(e *core.Env) {
 				ms.Net.Remove(p)
 			}
 			toLo[0].NoDelay, toLo[1].NoDelay = true, true // the same instant, no fake time in between
+			if tp.Chance(1, 2) {
+				burstOps, switchAt = 0, [2]int{1 + tp.Intn(80), 1 + tp.Intn(160)}
+			}
 			ms.Net.DeliverRaw(toLo[0])
 			ms.Net.DeliverRaw(toLo[1])
 			simnet.Wait()
+			switchAt = [2]int{}
 			e.Probe("request_and_response_of_the_peer_handled_at_once")
 			e.Nontrivial()
 		}
@@ -524,9 +552,13 @@ func run(e *core.Env) {
 			ms.Net.Remove(pr[0])
 			ms.Net.Remove(pr[1])
 			pr[0].NoDelay, pr[1].NoDelay = true, true // the same instant, no fake time in between
+			if tp.Chance(1, 2) {
+				burstOps, switchAt = 0, [2]int{1 + tp.Intn(80), 1 + tp.Intn(160)}
+			}
 			ms.Net.DeliverRaw(pr[0])
 			ms.Net.DeliverRaw(pr[1])
 			simnet.Wait()
+			switchAt = [2]int{}
 			e.Probe("two_hello_frames_handled_at_once")
 			e.Nontrivial()
 		case "send+deliver":
